@@ -4194,8 +4194,9 @@ class Device(utils.CompositeEventEmitter):
                 if timeout
                 else pending_request
             )
-        except Exception:
+        except BaseException:
             # Remove future from device context
+            # (also on cancellation, e.g. when the transport is lost)
             if peer_address == hci.Address.ANY:
                 self.classic_pending_accepts[hci.Address.ANY].remove(
                     pending_request_fut
